@@ -267,11 +267,21 @@ pub fn execute(sc: &Scenario, choices: &[usize]) -> Exec {
     let mut step = 0usize;
     let mut user_done = false;
     let mut last_released: Option<(usize, String, i64)> = None;
+    let mut stuck_wd = false;
 
     loop {
         let (threads, settled) = gates.wait_settled(Duration::from_secs(5));
         if !settled {
-            ex.machinery = Some(format!("threads did not settle: {threads:?}"));
+            let wd_stuck = threads.iter().any(|t| t.name == "wd" && t.status == St::Running);
+            if l.sender_dropped && wd_stuck {
+                ex.violations.push((
+                    "lingering-thread".into(),
+                    format!("the response was dropped but the timeout thread is still busy 5 s later (it neither reached a schedule point nor ended): {:?}", threads.iter().map(|t| (t.name, t.status.clone())).collect::<Vec<_>>()),
+                ));
+                stuck_wd = true;
+            } else {
+                ex.machinery = Some(format!("threads did not settle: {threads:?}"));
+            }
             break;
         }
         // wait for exited library threads to be really gone (their captured values are dropped late)
@@ -493,7 +503,7 @@ pub fn execute(sc: &Scenario, choices: &[usize]) -> Exec {
         }
     }
     // release everything and collect
-    let clean_end = ex.machinery.is_none() && ex.violations.iter().all(|(s, _)| s != "deadlock");
+    let clean_end = ex.machinery.is_none() && !stuck_wd && ex.violations.iter().all(|(s, _)| s != "deadlock");
     gates.open_all();
     if clean_end {
         let _ = user.join();
@@ -557,8 +567,10 @@ pub fn explore(ctx: &Ctx, sc: &Scenario, bound: usize, rank_base: u64) -> Explor
             ex = execute(sc, &prefix);
         }
         if let Some(m) = &ex.machinery {
-            eprintln!("MACHINERY: {m}; scenario {sc:?} schedule {prefix:?}");
-            std::process::exit(2);
+            // this scenario cannot be explored (on a changed tree the scheduling model may no longer
+            // fit): recorded, never a verdict; the other scenarios and parts still run
+            ctx.machinery(format!("{m}; scenario {sc:?} schedule {prefix:?}"));
+            return st;
         }
         st.executions += 1;
         st.decision_points += ex.points.len() as u64;
@@ -577,8 +589,8 @@ pub fn explore(ctx: &Ctx, sc: &Scenario, bound: usize, rank_base: u64) -> Explor
             }
             let same = again.machinery.is_none() && again.results == ex.results && again.violations.iter().map(|v| &v.0).eq(ex.violations.iter().map(|v| &v.0));
             if !same {
-                eprintln!("MACHINERY: a violating schedule did not reproduce: {sc:?} {full:?}: {:?} vs {:?}", ex.violations, again.violations);
-                std::process::exit(2);
+                ctx.machinery(format!("a violating schedule did not reproduce: {sc:?} {full:?}: {:?} vs {:?}", ex.violations, again.violations));
+                return st;
             }
             for (sig, what) in &ex.violations {
                 ctx.violation(
@@ -809,6 +821,156 @@ fn run_phase(p: &Phase) -> (Duration, String, Option<(String, String)>) {
     (elapsed, outcome, viol)
 }
 
+/// Part B extras: callers that read on after a read-timeout error, a zero timeout, and the release
+/// of the connection when the response is dropped long before the deadline. Free running.
+fn extra_timing_cases() -> Vec<(String, Option<(String, String)>)> {
+    #[derive(Clone, Copy, PartialEq)]
+    enum Kind {
+        ZeroTimeout,
+        RetryDrip,
+        RetryThenEof,
+        DropEarly,
+        DropUnread,
+    }
+    let run = |kind: Kind| -> (String, Option<(String, String)>) {
+        let listener = TcpListener::bind("127.0.0.1:0").unwrap();
+        let port = listener.local_addr().unwrap().port();
+        let (tx, rx) = std::sync::mpsc::channel::<Duration>();
+        let server = std::thread::spawn(move || {
+            let (mut s, _) = match listener.accept() {
+                Ok(x) => x,
+                Err(_) => return,
+            };
+            let _ = s.set_nodelay(true);
+            let t_accept = Instant::now();
+            let mut buf = [0u8; 2048];
+            let _ = s.set_read_timeout(Some(Duration::from_secs(10)));
+            if kind != Kind::ZeroTimeout {
+                let _ = s.read(&mut buf);
+                let _ = s.write_all(b"HTTP/1.1 200 OK\r\nServer: lab\r\n\r\nabc");
+            }
+            match kind {
+                Kind::ZeroTimeout => {
+                    let _ = s.read(&mut buf);
+                    std::thread::sleep(Duration::from_secs(4));
+                }
+                Kind::RetryDrip => {
+                    // one byte every 450 ms, longer than the client's read timeout, for ever
+                    let t0 = Instant::now();
+                    while t0.elapsed() < Duration::from_secs(8) {
+                        std::thread::sleep(Duration::from_millis(450));
+                        if s.write_all(b"z").is_err() {
+                            break;
+                        }
+                    }
+                }
+                Kind::RetryThenEof => {
+                    std::thread::sleep(Duration::from_millis(450));
+                    let _ = s.write_all(b"def");
+                    let _ = s.shutdown(std::net::Shutdown::Write);
+                    std::thread::sleep(Duration::from_millis(300));
+                }
+                Kind::DropEarly | Kind::DropUnread => {
+                    // when does the client's side of the connection go away?
+                    let _ = s.set_read_timeout(Some(Duration::from_secs(9)));
+                    loop {
+                        match s.read(&mut buf) {
+                            Ok(0) | Err(_) => break,
+                            Ok(_) => {}
+                        }
+                    }
+                    let _ = tx.send(t_accept.elapsed());
+                }
+            }
+        });
+        let t0 = Instant::now();
+        let url = format!("http://127.0.0.1:{port}/x");
+        let name;
+        let mut viol = None;
+        match kind {
+            Kind::ZeroTimeout => {
+                name = "zero-timeout".to_string();
+                let res = guarded(|| attohttpc::get(&url).timeout(Duration::ZERO).read_timeout(Duration::from_secs(20)).send().and_then(|r| r.bytes()));
+                let el = t0.elapsed();
+                if el > Duration::from_secs(2) || !matches!(res, Ok(Err(_))) {
+                    viol = Some(("phase-not-bounded".to_string(), format!("timeout(0) against a silent peer: returned {res:?} after {el:?}")));
+                }
+            }
+            Kind::RetryDrip | Kind::RetryThenEof => {
+                let t_ms: u64 = if kind == Kind::RetryDrip { 1500 } else { 8000 };
+                name = if kind == Kind::RetryDrip { "retrying-caller:drip-beyond-deadline".to_string() } else { "retrying-caller:pause-then-end".to_string() };
+                let res = guarded(|| attohttpc::get(&url).timeout(Duration::from_millis(t_ms)).read_timeout(Duration::from_millis(300)).send());
+                match res {
+                    Ok(Ok(mut resp)) => {
+                        let mut got = Vec::new();
+                        let mut buf = [0u8; 100];
+                        let mut trace = Vec::new();
+                        let end;
+                        loop {
+                            if t0.elapsed() > Duration::from_millis(t_ms + 2500) {
+                                end = "gave-up".to_string();
+                                break;
+                            }
+                            match resp.read(&mut buf) {
+                                Ok(0) => {
+                                    end = "eof".to_string();
+                                    break;
+                                }
+                                Ok(n) => got.extend_from_slice(&buf[..n]),
+                                Err(e) if e.kind() == std::io::ErrorKind::WouldBlock => trace.push("would-block"),
+                                Err(e) => {
+                                    end = format!("{:?}", e.kind());
+                                    break;
+                                }
+                            }
+                        }
+                        let el = t0.elapsed();
+                        let what = format!("caller that reads on after read-timeout errors (T = {t_ms} ms, read timeout 300 ms): got \"{}\", {} read timeouts, then {end} after {el:?}", esc(&got), trace.len());
+                        if kind == Kind::RetryDrip {
+                            if end != "TimedOut" || el > Duration::from_millis(t_ms + 2000) {
+                                viol = Some((if end == "eof" { "cut-body-reported-complete".to_string() } else { "deadline-not-enforced-after-read-timeouts".to_string() }, what));
+                            }
+                        } else if end != "eof" || got != b"abcdef" {
+                            viol = Some((if end == "TimedOut" { "timeout-reported-before-deadline".to_string() } else { "retrying-caller".to_string() }, what));
+                        }
+                    }
+                    other => viol = Some(("retrying-caller".to_string(), format!("send() = {other:?}"))),
+                }
+            }
+            Kind::DropEarly | Kind::DropUnread => {
+                name = if kind == Kind::DropEarly { "drop-after-partial-read".to_string() } else { "drop-unread".to_string() };
+                let res = guarded(|| attohttpc::get(&url).timeout(Duration::from_secs(6)).read_timeout(Duration::from_secs(20)).send());
+                match res {
+                    Ok(Ok(mut resp)) => {
+                        if kind == Kind::DropEarly {
+                            let mut b = [0u8; 3];
+                            let _ = resp.read(&mut b);
+                        }
+                        drop(resp);
+                        match rx.recv_timeout(Duration::from_secs(10)) {
+                            Ok(el) if el < Duration::from_secs(2) => {}
+                            other => {
+                                viol = Some((
+                                    "lingering-socket".to_string(),
+                                    format!("the response was dropped at once (T = 6 s); the peer saw the connection close after {other:?}"),
+                                ))
+                            }
+                        }
+                    }
+                    other => viol = Some(("retrying-caller".to_string(), format!("send() = {other:?}"))),
+                }
+            }
+        }
+        drop(server);
+        (name, viol)
+    };
+    let kinds = [Kind::ZeroTimeout, Kind::RetryDrip, Kind::RetryThenEof, Kind::DropEarly, Kind::DropUnread];
+    std::thread::scope(|sc| {
+        let hs: Vec<_> = kinds.iter().map(|k| sc.spawn(move || run(*k))).collect();
+        hs.into_iter().map(|h| h.join().unwrap()).collect()
+    })
+}
+
 pub fn c13(ctx: &Ctx) -> Report {
     // Part B first (free running, real clock), all phases in parallel
     let ps = phases();
@@ -822,6 +984,14 @@ pub fn c13(ctx: &Ctx) -> Report {
         ctx.outcome(format!("phase:{}", outcome.split(':').next().unwrap_or("")));
         if let Some((sig, what)) = viol {
             ctx.violation(format!("C13:{sig}"), what.clone(), json!({"engine": "c13", "phase": p}), 0);
+        }
+    }
+    let extras = extra_timing_cases();
+    let n_extras = extras.len() as u64;
+    for (name, viol) in extras {
+        ctx.outcome(format!("extra:{}", if viol.is_none() { "ok" } else { "violation" }));
+        if let Some((sig, what)) = viol {
+            ctx.violation(format!("C13:{sig}"), format!("{name}: {what}"), json!({"engine": "c13", "extra": name}), 1);
         }
     }
     // Part B, rustls half: the TLS-handshake stall phases against the other backend (second build)
@@ -892,7 +1062,7 @@ pub fn c13(ctx: &Ctx) -> Report {
     rep.set("deviation_bound_completed", ctx.tier.pick(2, 3) as u64);
     rep.set("max_schedule_length", max_depth);
     rep.set("executions_retried_for_timing", retried);
-    rep.set("phases_swept", ps.len() as u64 + rustls_phases);
+    rep.set("phases_swept", ps.len() as u64 + rustls_phases + n_extras);
     rep.set("phases_swept_rustls_backend", rustls_phases);
     rep.set("slowest_phase_ms", slowest.as_millis() as u64);
     rep.set("exhaustive", true);
@@ -912,6 +1082,11 @@ pub fn replay(v: &serde_json::Value) -> i32 {
         let text = String::from_utf8_lossy(&st.stdout).to_string();
         println!("{text}");
         return if text.contains("\"t\":\"v\"") { 1 } else { 0 };
+    }
+    if !v["case"]["extra"].is_null() {
+        let r = extra_timing_cases();
+        println!("{r:?}");
+        return if r.iter().any(|(_, v)| v.is_some()) { 1 } else { 0 };
     }
     if !v["case"]["phase"].is_null() {
         let p: Phase = serde_json::from_value(v["case"]["phase"].clone()).expect("phase");
